@@ -11,5 +11,141 @@ ASSUMPTIONS = [
 ]
 
 
+import os
+import re
+import shutil
+import tempfile
+
+from rv.core import Stream
+from rv import graphlib as GL
+
+
+class SolutionHistory(Stream):
+    """histories through the prior-solution back-end: a universe of wheels in a find-links directory is compiled by the
+    real command line, the output is kept and fed to a second compile as --solution with some projects released
+    (-P); the pins of the second run are judged against the *wheels'* own requirements - the relation the first run
+    wrote into its annotations and the second one read back must not have lost a bound on the way"""
+    name = "solution-history"
+    quick_n = 100
+    thorough_n = 5000
+    batch = 20
+    parallel_quick = 5
+
+    def setup(self):
+        self.tmp = tempfile.mkdtemp(prefix="rvc01h")
+
+    def teardown(self):
+        shutil.rmtree(getattr(self, "tmp", ""), ignore_errors=True)
+
+    def generate(self, rng):
+        case = SS.gen_universe(rng, rng.choice(["dag-free", "dag-free", "dag", "extras"]))
+        case["constraints"] = []
+        names = list(case["universe"])         # in dependency order: a project requires later ones only
+        case["release"] = rng.sample(names, rng.randint(1, min(2, len(names))))
+        if rng.random() < 0.6:
+            # a requirer that stays pinned bounds a released project below its newest release - the bound written with
+            # the other things a requirement can carry (extras)
+            targets = [t for t in names[1:] if len(case["universe"][t]) >= 2]
+            if targets:
+                t = rng.choice(targets)
+                n = rng.choice(names[: names.index(t)])
+                vs = sorted(case["universe"][t], key=GL.V)
+                bound = rng.choice(["<" + vs[-1], "<=" + vs[-2], "!=" + vs[-1], "<" + vs[-1] + ",>=0.1"])
+                ex = rng.choice(["", "[x]", "[x,y]", "[p.q]"])
+                for v in case["universe"][n]:
+                    rs = [q for q in case["universe"][n][v] if GL.norm(GL.P(q).name) != GL.norm(t)]
+                    case["universe"][n][v] = rs + [rng.choice(SS.SPELL[t]) + ex + bound]
+                if not any(GL.norm(GL.P(q).name) == GL.norm(n) for rs in case["inputs"] for q in rs):
+                    case["inputs"][0].append(n)
+                case["release"] = [t] + [x for x in case["release"] if x not in (t, n)][:1]
+        case["layout"] = rng.choice([[], [], ["--hashes"], ["--multiline"]])
+        return case
+
+    @staticmethod
+    def _pins(text):
+        out = {}
+        for m in re.finditer(r"^([A-Za-z0-9._-]+)(?:\[[^\]]*\])?==(\S+)", text, re.M):
+            out[GL.norm(m.group(1))] = m.group(2)
+        return out
+
+    def impl(self, case):
+        from rv.core import digest
+        from rv.props.c07 import materialise, write_inputs
+        from rv.props.c09 import run_cli
+        GL.reset_caches()
+        d = os.path.join(self.tmp, digest(case))
+        shutil.rmtree(d, ignore_errors=True)
+        os.makedirs(d)
+        materialise(case, d)
+        files = write_inputs(d, case["inputs"])
+        out = {}
+        with SS.observed_region() as region:
+            first = run_cli(d, files, extra=case["layout"])
+            out["first"] = {"code": first["code"], "pins": self._pins(first["stdout"])}
+            if first["code"] == 0:
+                with open(os.path.join(d, "prior.txt"), "w") as f:
+                    f.write(first["stdout"])
+                GL.reset_caches()
+                extra = ["--solution", "prior.txt"]
+                for n in case["release"]:
+                    extra += ["-P", n]
+                second = run_cli(d, files, extra=extra)
+                out["second"] = {"code": second["code"], "exception": second["exception"], "pins": self._pins(second["stdout"]),
+                                 "stderr_tail": second["stderr"][-300:]}
+            out["region"] = region()
+        shutil.rmtree(d, ignore_errors=True)
+        return out
+
+    def flags(self, case, r):
+        fl = ["first-exit:%s" % r["first"]["code"], "region:" + r["region"]]
+        if "second" in r:
+            fl.append("second-exit:%s" % r["second"]["code"])
+            if any(GL.norm(n) in r["first"]["pins"] for n in case["release"]):
+                fl.append("a-pinned-project-is-released")
+            if r["second"]["pins"] != r["first"]["pins"]:
+                fl.append("second-solution-differs")
+        return fl
+
+    def oracle(self, case, r):
+        if "second" not in r or r["second"]["code"] != 0:
+            return []
+        region = r["region"]
+        pins = r["second"]["pins"]
+        U = {GL.norm(n): {str(GL.V(v)): reqs for v, reqs in vs.items()} for n, vs in case["universe"].items()}
+        fails = []
+
+        def check(requirer, t):
+            q = GL.P(t)
+            if q.marker is not None and not q.marker.evaluate({"extra": ""}):
+                return            # requirements under an extra: judged by the compile stream
+            k = GL.norm(q.name)
+            v = pins.get(k)
+            if v is None:
+                fails.append(("C01/unsolved-on-success/" + region, {"requirer": requirer, "requirement": t}))
+            elif not q.specifier.contains(v, prereleases=True):
+                fails.append(("C01/pin-violates-requirement/" + region, {"requirer": requirer, "requirement": t, "pin": "%s==%s" % (k, v)}))
+        for i, rs in enumerate(case["inputs"]):
+            for t in rs:
+                check("in%d.txt" % i, t)
+        for k, v in pins.items():
+            reqs = U.get(k, {}).get(str(GL.V(v)))
+            if reqs is None:
+                fails.append(("C01/version-not-offered/" + region, {"pin": "%s==%s" % (k, v)}))
+                continue
+            for t in reqs:
+                check("%s %s" % (k, v), t)
+        return fails[:3]
+
+    def shrink(self, case):
+        from rv.props.c07 import CliVariants
+        for i in range(len(case["release"])):
+            if len(case["release"]) > 1:
+                yield dict(case, release=case["release"][:i] + case["release"][i + 1:])
+        if case["layout"]:
+            yield dict(case, layout=[])
+        for c in CliVariants.shrink(self, case):
+            yield c
+
+
 def streams():
-    return [SS.CompileStream("C01")]
+    return [SS.CompileStream("C01"), SolutionHistory()]
